@@ -474,4 +474,29 @@ def Win.step (w : Win) (o : WinOp) : Except WinErr Win :=
 /-- errors leave the window unchanged -/
 def Win.stepD (w : Win) (o : WinOp) : Win := match w.step o with | .ok w' => w' | .error _ => w
 
+/-! ## fixed TSL / TSB  (`ts_data_fixed_structured_ops.cpp`, children `TS<Int>`)
+
+No delta bits: a child is "modified" when its `last_modified_time` equals the parent's
+(`child_modified_at_parent_time`; the output view asks the child `modified()` at the view's time). A child
+write goes through the child's own mutation view (`atomic_copy_value_from`, `mark_modified`,
+`TSParentLink::notify_child_modified`; `fixed_record_child_modified` only marks TSB field validity). -/
+
+structure Fixed where
+  kids : List (Int × Nat) := []     -- (value, last_modified_time) per child
+  lmt : Nat := 0
+deriving Repr
+
+def Fixed.init (n : Nat) : Fixed := { kids := List.replicate n (0, 0) }
+
+/-- write child `i` at time `t` (index and time already validated) -/
+def Fixed.write (x : Fixed) (i : Nat) (t : Time) (v : Int) : Fixed :=
+  let c := x.kids.getD i (0, 0)
+  if c.2 != t then
+    -- first_for_time: record_modified on the child; an older time is ignored
+    if t ≤ c.2 then { x with kids := x.kids.set i (v, c.2) }
+    else { kids := x.kids.set i (v, t), lmt := recMod x.lmt t }
+  else { x with kids := x.kids.set i (v, c.2) }
+
+def Fixed.modifiedAt (x : Fixed) (t : Time) : Bool := t != 0 && x.lmt == t
+
 end HgVerif.Slots
